@@ -3,20 +3,17 @@ From Coq Require Import ZArith List Bool Lia.
 From GD Require Import C04.Bytes C13.Recode C13.RecodeProofs.
 Import ListNotations.
 
-(* recoding between binary codecs (none, gzip, bzip2, lzma, sie), any pair of byte
+(* recoding between any two codecs (none, gzip, bzip2, lzma, sie, text), any pair of byte
    orders incl. ARM, any type, any length, any copy-buffer size *)
-Theorem recode_preserves_binary_codecs : forall h t ns sin sout vs,
-  1 <= ns -> Forall (wf_sample t) vs -> mogrify_values h t ns Bin Bin sin sout vs = vs.
-Proof. exact recode_preserves_binary. Qed.
+Theorem recode_preserves : forall h t ns ein eout sin sout vs,
+  1 <= ns -> Forall (wf_sample t) vs -> mogrify_values h t ns ein eout sin sout vs = vs.
+Proof. exact recode_preserves_all. Qed.
 
-(* the full statement (text included), its refutation, and the exact region where it holds *)
-Definition recode_preserves_statement : Prop := recode_statement.
-Theorem recode_preserves_refuted : ~ recode_statement.
-Proof. exact recode_refuted. Qed.
-Theorem recode_preserves_partial : forall h t ns ein eout sin sout vs,
-  1 <= ns -> Forall (wf_sample t) vs -> native_layout h t sin -> native_layout h t sout ->
-  mogrify_values h t ns ein eout sin sout vs = vs.
-Proof. exact recode_preserves_native. Qed.
+(* closed under composition of operations *)
+Theorem recode_sequences_preserve : forall h t (ops : list (nat * (codec * codec) * (sexflags * sexflags))) vs,
+  Forall (fun o => 1 <= fst (fst o)) ops -> Forall (wf_sample t) vs ->
+  fold_left (recode_step h t) ops vs = vs.
+Proof. exact recode_sequence_preserves. Qed.
 
 (* frame-offset change: every absolute sample at or after the new offset is unchanged
    (zero-filled below the old offset, dropped below the new one, as gd_alter_frameoffset(3) says) *)
@@ -25,15 +22,11 @@ Theorem frameoffset_shift_preserves : forall (A : Type) (zero : A) (old_off new_
   abs_sample zero new_off spf (shift_file zero (new_off - old_off) spf vs) k = abs_sample zero old_off spf vs k)%Z.
 Proof. exact @shift_preserves. Qed.
 
-(* RAW type change: full statement, refutation, partial *)
-Definition retype_preserves_statement : Prop := retype_statement.
-Theorem retype_preserves_refuted : ~ retype_statement.
-Proof. exact retype_refuted. Qed.
-Theorem retype_preserves_partial : forall conv h t t' e s vs,
+(* RAW type change with recoding, every codec and byte order *)
+Theorem retype_preserves : forall conv h t t' e s vs,
   Forall (wf_sample t) vs -> Forall (wf_sample t') (map conv vs) ->
-  native_layout h t (buf_sex e s) -> native_layout h t' (buf_sex e s) ->
   retype_values conv h t t' e s vs = map conv vs.
-Proof. exact retype_native. Qed.
+Proof. exact retype_preserves_all. Qed.
 
 (* sample-rate change: the chunked conversion produces old sample floor(j*o/n) of the same frame *)
 Theorem spf_change_matches_statement : forall (A : Type) (dflt : A) o n nf (chunk : list A) q j,
@@ -41,6 +34,6 @@ Theorem spf_change_matches_statement : forall (A : Type) (dflt : A) o n nf (chun
   nth (q * n + j) (spf_convert_chunk dflt o n chunk) dflt = spf_spec_sample dflt o n chunk q j.
 Proof. exact @spf_convert_matches_spec. Qed.
 
-(* the hypotheses of the partial theorems are satisfiable *)
-Example native_layout_inhabited : forall t, native_layout x86_64 t SexLittle.
-Proof. exact native_layout_little_x86. Qed.
+(* the hypotheses are satisfiable *)
+Example wf_inhabited : Forall (wf_sample UINT16) [[1%Z]; [258%Z]].
+Proof. repeat constructor; cbn; lia. Qed.
